@@ -1764,4 +1764,1255 @@ theorem scanItems_eq (sep : UInt8) (ws : Bytes) (skip : Bool) (hsw : sep ∉ ws)
   rw [this]
   cases splitTrimDrop sep ws skip b <;> rfl
 
+/-! ## the quote-aware scanner (`quote_aware=True`)
+
+The same development as above for `parseStringArrayQ`: the search on a decomposed buffer, the specification `splitQ`,
+the loop invariant, the refinement theorem, invariance under insignificant spelling, the canonical spelling, totality.
+`freeQ sep q e` says that no byte of `e`, read from quoted-string state `q`, is an ACTIVE separator (a separator byte
+after which the state is `out`). -/
+
+/-- no active separator in `e` when reading starts in state `q` -/
+def freeQ (sep : UInt8) : QState → Bytes → Bool
+  | _, [] => true
+  | q, x :: xs => !(decide (qNext q x = .out) && decide (x = sep)) && freeQ sep (qNext q x) xs
+
+theorem qAfter_nil (q : QState) : qAfter q [] = q := rfl
+
+theorem qAfter_cons (q : QState) (x : UInt8) (xs : Bytes) : qAfter q (x :: xs) = qAfter (qNext q x) xs := rfl
+
+theorem qAfter_append (q : QState) (a c : Bytes) : qAfter q (a ++ c) = qAfter (qAfter q a) c := by
+  simp [qAfter, List.foldl_append]
+
+theorem freeQ_cons (sep : UInt8) (q : QState) (x : UInt8) (xs : Bytes) :
+    freeQ sep q (x :: xs) = true ↔ ¬ (qNext q x = .out ∧ x = sep) ∧ freeQ sep (qNext q x) xs = true := by
+  by_cases h1 : qNext q x = .out <;> by_cases h2 : x = sep <;> simp [freeQ, h1, h2]
+
+theorem freeQ_append (sep : UInt8) (q : QState) (a c : Bytes) :
+    freeQ sep q (a ++ c) = true ↔ freeQ sep q a = true ∧ freeQ sep (qAfter q a) c = true := by
+  induction a generalizing q with
+  | nil => simp [freeQ, qAfter]
+  | cons x xs ih =>
+    simp only [List.cons_append, freeQ_cons, ih, qAfter_cons]
+    constructor
+    · rintro ⟨h1, h2, h3⟩; exact ⟨⟨h1, h2⟩, h3⟩
+    · rintro ⟨⟨h1, h2⟩, h3⟩; exact ⟨h1, h2, h3⟩
+
+/-- a run without the separator byte is free in every state -/
+theorem freeQ_of_not_mem (sep : UInt8) (q : QState) (e : Bytes) (h : sep ∉ e) : freeQ sep q e = true := by
+  induction e generalizing q with
+  | nil => rfl
+  | cons x xs ih =>
+    rw [freeQ_cons]
+    exact ⟨fun hc => h (by simp [hc.2]), ih _ (fun hm => h (by simp [hm]))⟩
+
+/-- a run without a double quote leaves the state `out` -/
+theorem qAfter_out_of_no_quote (e : Bytes) (h : (0x22 : UInt8) ∉ e) : qAfter .out e = .out := by
+  induction e with
+  | nil => rfl
+  | cons x xs ih =>
+    have hx : x ≠ 0x22 := fun hc => h (by simp [hc])
+    rw [qAfter_cons]
+    simp only [qNext, hx, if_false]
+    exact ih (fun hm => h (by simp [hm]))
+
+theorem qNext_out_sep (sep : UInt8) (hq : sep ≠ 0x22) : qNext .out sep = .out := by
+  simp [qNext, hq]
+
+/-! ### the quote-aware separator search, one single-byte separator -/
+
+theorem sepSearchQ_step_in {b : Bytes} {off n e : Nat} {seps : List Bytes} {q : QState} (hq : q ≠ .out) :
+    sepSearchQ b off seps (n + 1) e q =
+      sepSearchQ b off seps n (e + 1) (qStepAt b e q) := by
+  simp [sepSearchQ, hq]
+
+theorem sepSearchQ_step_false {b : Bytes} {off n e : Nat} {sep : UInt8} {q : QState}
+    (h : q ≠ .out ∨ [sep].isSuffixOf (slice b off e) = false) :
+    sepSearchQ b off [[sep]] (n + 1) e q =
+      sepSearchQ b off [[sep]] n (e + 1) (qStepAt b e q) := by
+  by_cases hq : q = .out
+  · rcases h with h | h
+    · exact absurd hq h
+    · simp [sepSearchQ, hq, h]
+  · exact sepSearchQ_step_in hq
+
+theorem sepSearchQ_step_true {b : Bytes} {off n e : Nat} {sep : UInt8}
+    (h : [sep].isSuffixOf (slice b off e) = true) :
+    sepSearchQ b off [[sep]] (n + 1) e .out = some (e - 1) := by
+  simp [sepSearchQ, h]
+
+theorem getElem?_mid (pre done : Bytes) (x : UInt8) (r : Bytes) :
+    (pre ++ (done ++ x :: r))[pre.length + done.length]? = some x := by
+  rw [← List.append_assoc, show pre.length + done.length = (pre ++ done).length by simp]
+  simp
+
+theorem getElem?_end (pre done : Bytes) : (pre ++ done)[pre.length + done.length]? = none := by
+  simp
+
+theorem suffix_snoc (sep x : UInt8) (l : Bytes) : [sep].isSuffixOf (l ++ [x]) = decide (x = sep) := by
+  by_cases h : x = sep
+  · subst h; simp [suffix_single_true]
+  · simp only [h, decide_false]
+    cases hs : [sep].isSuffixOf (l ++ [x]) with
+    | false => rfl
+    | true =>
+      obtain ⟨t, ht⟩ := List.isSuffixOf_iff_suffix.mp hs
+      have := congrArg List.getLast? ht
+      simp at this
+      exact absurd this.symm h
+
+theorem sepSearchQ_found (sep : UInt8) (pre : Bytes) : ∀ (e done r b : Bytes) (n E : Nat) (q : QState),
+    (q ≠ .out ∨ [sep].isSuffixOf done = false) → freeQ sep q e = true → qNext (qAfter q e) sep = .out →
+    b = pre ++ (done ++ (e ++ sep :: r)) → n = e.length + r.length + 2 →
+    E = pre.length + done.length → sepSearchQ b pre.length [[sep]] n E q = some (E + e.length) := by
+  intro e
+  induction e with
+  | nil =>
+    intro done r b n E q hd _ hq hb hn hE
+    subst hn
+    have h1 : slice b pre.length E = done := slice_mid' pre done (sep :: r) (by simpa using hb) rfl hE
+    have h2 : slice b pre.length (E + 1) = done ++ [sep] :=
+      slice_mid' pre (done ++ [sep]) r (by simp [hb]) rfl (by simp [hE]; omega)
+    have hg : qStepAt b E q = qNext q sep := by
+      unfold qStepAt; rw [hb, hE, List.nil_append, getElem?_mid pre done sep r]
+    rw [show ([] : Bytes).length + r.length + 2 = (r.length + 1) + 1 by simp,
+      sepSearchQ_step_false (by rw [h1]; exact hd), hg]
+    simp only [qAfter_nil] at hq
+    simp only [hq]
+    rw [sepSearchQ_step_true (by rw [h2]; exact suffix_single_true sep done)]
+    simp
+  | cons x e' ih =>
+    intro done r b n E q hd he hq hb hn hE
+    subst hn
+    have h1 : slice b pre.length E = done := slice_mid' pre done (x :: e' ++ sep :: r) (by simpa using hb) rfl hE
+    have hg : qStepAt b E q = qNext q x := by
+      unfold qStepAt; rw [hb, hE, show x :: e' ++ sep :: r = x :: (e' ++ sep :: r) from rfl,
+        getElem?_mid pre done x (e' ++ sep :: r)]
+    rw [freeQ_cons] at he
+    have := ih (done ++ [x]) r b (e'.length + r.length + 2) (E + 1) (qNext q x)
+      (by
+        rw [suffix_snoc]
+        by_cases h : qNext q x = .out
+        · right
+          have : x ≠ sep := fun hx => he.1 ⟨h, hx⟩
+          simp [this]
+        · left; exact h)
+      he.2 (by simpa [qAfter_cons] using hq) (by simp [hb]) rfl (by simp [hE]; omega)
+    rw [show (x :: e').length + r.length + 2 = (e'.length + r.length + 2) + 1 by simp; omega,
+      sepSearchQ_step_false (by rw [h1]; exact hd), hg]
+    simp only [this]
+    congr 1; simp; omega
+
+theorem sepSearchQ_absent (sep : UInt8) (pre : Bytes) : ∀ (todo done b : Bytes) (n E : Nat) (q : QState),
+    (q ≠ .out ∨ [sep].isSuffixOf done = false) → freeQ sep q todo = true → b = pre ++ (done ++ todo) →
+    n = todo.length + 1 → E = pre.length + done.length → sepSearchQ b pre.length [[sep]] n E q = none := by
+  intro todo
+  induction todo with
+  | nil =>
+    intro done b n E q hd _ hb hn hE
+    subst hn
+    have h1 : slice b pre.length E = done := slice_mid' pre done [] (by simpa using hb) rfl hE
+    rw [show ([] : Bytes).length + 1 = 0 + 1 by simp, sepSearchQ_step_false (by rw [h1]; exact hd)]
+    rfl
+  | cons x t ih =>
+    intro done b n E q hd ht hb hn hE
+    subst hn
+    have h1 : slice b pre.length E = done := slice_mid' pre done (x :: t) (by simpa using hb) rfl hE
+    have hg : qStepAt b E q = qNext q x := by
+      unfold qStepAt; rw [hb, hE, getElem?_mid pre done x t]
+    rw [freeQ_cons] at ht
+    have := ih (done ++ [x]) b (t.length + 1) (E + 1) (qNext q x)
+      (by
+        rw [suffix_snoc]
+        by_cases h : qNext q x = .out
+        · right
+          have : x ≠ sep := fun hx => ht.1 ⟨h, hx⟩
+          simp [this]
+        · left; exact h)
+      ht.2 (by simp [hb]) rfl (by simp [hE]; omega)
+    rw [show (x :: t).length + 1 = (t.length + 1) + 1 by simp,
+      sepSearchQ_step_false (by rw [h1]; exact hd), hg]
+    simp only [this]
+
+/-- `tail` is the end of the input, or an ACTIVE separator follows the item `e` -/
+def TailQ (sep : UInt8) (e tail : Bytes) : Prop :=
+  tail = [] ∨ (qNext (qAfter .out e) sep = .out ∧ ∃ r, tail = sep :: r)
+
+theorem until_itemEndQ (sep : UInt8) (pre e tail b : Bytes) (off : Nat)
+    (hb : b = pre ++ (e ++ tail)) (ho : off = pre.length) (he : freeQ sep .out e = true)
+    (htail : TailQ sep e tail) :
+    findItemEndQ b off [[sep]] true = some (off + e.length) := by
+  unfold findItemEndQ
+  subst ho
+  have h0 : (QState.out ≠ QState.out ∨ [sep].isSuffixOf ([] : Bytes) = false) := Or.inr (by simp)
+  rcases htail with h | ⟨hq, r, h⟩
+  · subst h
+    rw [sepSearchQ_absent sep pre e [] b (b.length + 1 - pre.length) pre.length .out h0 he (by simpa using hb)
+      (by simp [hb]; omega) (by simp)]
+    simp [hb]
+  · subst h
+    rw [sepSearchQ_found sep pre e [] r b (b.length + 1 - pre.length) pre.length .out h0 he hq (by simpa using hb)
+      (by simp [hb]; omega) (by simp)]
+
+theorem until_decomposedQ (sep : UInt8) (ws pre t g tail b : Bytes) (off : Nat)
+    (hb : b = pre ++ (t ++ (g ++ tail))) (ho : off = pre.length)
+    (hfree : freeQ sep .out (t ++ g) = true) (hg : ∀ y ∈ g, y ∈ ws)
+    (ht : (t = [] ∧ g = []) ∨ ∃ t' x, t = t' ++ [x] ∧ x ∉ ws)
+    (htail : TailQ sep (t ++ g) tail) :
+    parseStringUntilSeparatorQ b off [[sep]] true ws =
+      match asciiText t with
+      | .error e => .error e
+      | .ok item => .ok (item, t.length) := by
+  have hend := until_itemEndQ sep pre (t ++ g) tail b off (by simpa using hb) ho hfree htail
+  unfold parseStringUntilSeparatorQ
+  simp only [hend]
+  have hlt : ¬ (off + (t ++ g).length < off) := by omega
+  simp only [hlt, if_false]
+  have hcount : trimCount b ws off (off + (t ++ g).length) = .ok g.length := by
+    unfold trimCount
+    rcases ht with ⟨h1, h2⟩ | ⟨t', x, h1, hx⟩
+    · subst h1 h2; simp
+    · have htake : b.take (off + (t ++ g).length) = pre ++ (t ++ g) := by
+        rw [hb, ho, show pre ++ (t ++ (g ++ tail)) = (pre ++ (t ++ g)) ++ tail by simp,
+          show pre.length + (t ++ g).length = (pre ++ (t ++ g)).length by simp]
+        exact List.take_left
+      have hpos : off < off + (t ++ g).length := by subst h1; simp; omega
+      simp only [hpos, if_true, htake]
+      subst h1
+      have : (pre ++ (t' ++ [x] ++ g)).reverse = g.reverse ++ x :: (t'.reverse ++ pre.reverse) := by simp
+      rw [this, trimRun_run ws g.reverse x _ 0 (fun y hy => hg y (by simpa using hy)) hx]
+      simp
+  simp only [hcount]
+  have hnot : ¬ (off + (t ++ g).length - off < g.length) := by simp
+  simp only [hnot, if_false]
+  have hsl : slice b off (off + (t ++ g).length - g.length) = t :=
+    slice_mid' pre t (g ++ tail) hb ho (by simp [ho]; omega)
+  rw [hsl]
+  cases asciiText t with
+  | error e => rfl
+  | ok item => simp
+
+theorem stepItem_decomposedQ (sep : UInt8) (ws pre t g tail b : Bytes) (off : Nat) (acc : List Bytes) (skip : Bool)
+    (hb : b = pre ++ (t ++ (g ++ tail))) (ho : off = pre.length) (hsw : sep ∉ ws)
+    (hfree : freeQ sep .out (t ++ g) = true) (hg : ∀ y ∈ g, y ∈ ws)
+    (ht : (t = [] ∧ g = []) ∨ ∃ t' x, t = t' ++ [x] ∧ x ∉ ws)
+    (htail : TailQ sep (t ++ g) tail) :
+    stepItemQ b [sep] ws skip off acc =
+      if t = [] then (if skip then .ok (acc, off) else .error .invalidValue)
+      else if isAscii t then .ok (acc ++ [t], off + t.length + g.length) else .error .invalidValue := by
+  have htl : ∀ y r', tail = y :: r' → y ∉ ws := by
+    intro y r' h
+    rcases htail with h0 | ⟨_, r, h0⟩
+    · rw [h0] at h; cases h
+    · rw [h0] at h; cases h; exact hsw
+  unfold stepItemQ
+  rw [show ([sep].map fun x => [x]) = [[sep]] from rfl,
+    until_decomposedQ sep ws pre t g tail b off hb ho hfree hg ht htail]
+  by_cases hte : t = []
+  · have hge : g = [] := by
+      rcases ht with ⟨_, h⟩ | ⟨t', x, h, _⟩
+      · exact h
+      · rw [hte] at h; simp at h
+    subst hte hge
+    have hskip : skipWs b ws off = .ok (off + ([] : Bytes).length) :=
+      skipWs_run ws pre [] tail (by simpa using hb) ho (by simp) htl
+    cases skip <;> simp [asciiText, isAscii, hskip]
+  · simp only [hte, if_false]
+    have hlen : t.length ≠ 0 := by
+      cases t with
+      | nil => exact absurd rfl hte
+      | cons x xs => simp
+    by_cases hasc : isAscii t = true
+    · have hsl : slice b off (off + t.length) = t := slice_mid' pre t (g ++ tail) hb ho (by rw [ho])
+      have hskip : skipWs b ws (off + t.length) = .ok (off + t.length + g.length) :=
+        skipWs_run ws (pre ++ t) g tail (by simp [hb]) (by simp [ho]) hg htl
+      simp [asciiText, hasc, hlen, hsl, hskip]
+    · simp [asciiText, hasc]
+
+
+/-! ### elementary facts about the quote-aware specification -/
+
+theorem splitQ_ne_nil (sep : UInt8) (q : QState) (l : Bytes) : splitQ sep q l ≠ [] := by
+  cases l with
+  | nil => simp [splitQ]
+  | cons x xs =>
+    simp only [splitQ]
+    split
+    · simp
+    · split <;> simp
+
+theorem splitQ_cons_active (sep : UInt8) (q : QState) (x : UInt8) (xs : Bytes) (h : qNext q x = .out ∧ x = sep) :
+    splitQ sep q (x :: xs) = [] :: splitQ sep .out xs := by
+  obtain ⟨h1, h2⟩ := h
+  subst h2
+  simp [splitQ, h1]
+
+theorem splitQ_cons_inactive (sep : UInt8) (q : QState) (x : UInt8) (xs : Bytes) (hx : ¬ (qNext q x = .out ∧ x = sep)) :
+    ∃ h tl, splitQ sep (qNext q x) xs = h :: tl ∧ splitQ sep q (x :: xs) = (x :: h) :: tl := by
+  cases hs : splitQ sep (qNext q x) xs with
+  | nil => exact absurd hs (splitQ_ne_nil sep _ xs)
+  | cons h tl => exact ⟨h, tl, rfl, by simp only [splitQ, hx, if_false, hs]⟩
+
+/-- a run without active separator in front is glued to the first element of the rest -/
+theorem splitQ_append_free (sep : UInt8) (q : QState) (e r : Bytes) (he : freeQ sep q e = true) :
+    ∃ h tl, splitQ sep (qAfter q e) r = h :: tl ∧ splitQ sep q (e ++ r) = (e ++ h) :: tl := by
+  induction e generalizing q with
+  | nil =>
+    cases hs : splitQ sep q r with
+    | nil => exact absurd hs (splitQ_ne_nil sep q r)
+    | cons h tl => exact ⟨h, tl, by simpa [qAfter] using hs, by simp [hs]⟩
+  | cons x xs ih =>
+    rw [freeQ_cons] at he
+    obtain ⟨h, tl, h1, h2⟩ := ih (qNext q x) he.2
+    obtain ⟨h', tl', h3, h4⟩ := splitQ_cons_inactive sep q x (xs ++ r) he.1
+    rw [h2] at h3
+    cases h3
+    exact ⟨h, tl, by simpa [qAfter_cons] using h1, by simpa using h4⟩
+
+theorem splitQ_free (sep : UInt8) (q : QState) (e : Bytes) (he : freeQ sep q e = true) : splitQ sep q e = [e] := by
+  obtain ⟨h, tl, h1, h2⟩ := splitQ_append_free sep q e [] he
+  simp [splitQ] at h1
+  obtain ⟨rfl, rfl⟩ := h1
+  simpa using h2
+
+theorem splitQ_append_sep (sep : UInt8) (q : QState) (e r : Bytes) (he : freeQ sep q e = true)
+    (hact : qNext (qAfter q e) sep = .out) :
+    splitQ sep q (e ++ sep :: r) = e :: splitQ sep .out r := by
+  obtain ⟨h, tl, h1, h2⟩ := splitQ_append_free sep q e (sep :: r) he
+  rw [splitQ_cons_active sep _ sep r ⟨hact, rfl⟩] at h1
+  simp at h1
+  obtain ⟨rfl, rfl⟩ := h1
+  simpa using h2
+
+theorem splitQ_run (sep : UInt8) (hq : sep ≠ 0x22) (s r : Bytes) (hs : ∀ x ∈ s, x = sep) :
+    splitQ sep .out (s ++ r) = List.replicate s.length [] ++ splitQ sep .out r := by
+  induction s with
+  | nil => simp
+  | cons x xs ih =>
+    have hx : x = sep := hs x (by simp)
+    subst hx
+    rw [List.cons_append, splitQ_cons_active x .out x (xs ++ r) ⟨qNext_out_sep x hq, rfl⟩,
+      ih (fun y hy => hs y (by simp [hy]))]
+    simp [List.replicate_succ]
+
+/-- the trimmed elements of the quote-aware split -/
+def elemsQ (sep : UInt8) (ws l : Bytes) : List Bytes := (splitQ sep .out l).map (trim ws)
+
+theorem elemsQ_ne_nil (sep : UInt8) (ws l : Bytes) : elemsQ sep ws l ≠ [] := by
+  simp [elemsQ, splitQ_ne_nil]
+
+theorem elemsQ_nil (sep : UInt8) (ws : Bytes) : elemsQ sep ws [] = [[]] := by
+  simp [elemsQ, splitQ, trim_nil]
+
+/-- a whitespace run (no separator, no double quote) is free and leaves the state `out` -/
+theorem ws_run_free (sep : UInt8) (ws w : Bytes) (hsw : sep ∉ ws) (hqw : (0x22 : UInt8) ∉ ws) (hw : ∀ x ∈ w, x ∈ ws) :
+    freeQ sep .out w = true ∧ qAfter .out w = .out :=
+  ⟨freeQ_of_not_mem sep .out w (fun hm => hsw (hw sep hm)), qAfter_out_of_no_quote w (fun hm => hqw (hw _ hm))⟩
+
+/-- whitespace in front of the first element is insignificant -/
+theorem elemsQ_leading_ws (sep : UInt8) (ws w r : Bytes) (hsw : sep ∉ ws) (hqw : (0x22 : UInt8) ∉ ws)
+    (hw : ∀ x ∈ w, x ∈ ws) : elemsQ sep ws (w ++ r) = elemsQ sep ws r := by
+  obtain ⟨hf, hq⟩ := ws_run_free sep ws w hsw hqw hw
+  obtain ⟨h, tl, h1, h2⟩ := splitQ_append_free sep .out w r hf
+  rw [hq] at h1
+  unfold elemsQ
+  rw [h1, h2]
+  simp [trim_run ws w h hw]
+
+theorem elemsQ_ne_single_nil (sep : UInt8) (ws : Bytes) (y : UInt8) (r' : Bytes) (hy : y ∉ ws) :
+    elemsQ sep ws (y :: r') ≠ [[]] := by
+  unfold elemsQ
+  by_cases hys : qNext .out y = .out ∧ y = sep
+  · rw [splitQ_cons_active sep .out y r' hys]
+    cases hs : splitQ sep .out r' with
+    | nil => exact absurd hs (splitQ_ne_nil sep .out r')
+    | cons h tl => simp
+  · obtain ⟨h, tl, _, h2⟩ := splitQ_cons_inactive sep .out y r' hys
+    rw [h2]
+    intro hcon
+    simp at hcon
+    have h3 : trim ws (y :: h) = [] := hcon.1
+    unfold trim at h3
+    rw [trimStart_head ws (y :: h) (by intro z r e; cases e; exact hy)] at h3
+    unfold trimEnd at h3
+    have : (y :: h).reverse.dropWhile ws.contains ≠ [] :=
+      dropWhile_ne_nil _ _ y (by simp) (by simpa using hy)
+    exact this (by simpa using h3)
+
+theorem splitTrimDropQ_skip (sep : UInt8) (ws b : Bytes) :
+    splitTrimDropQ sep ws true b = dropItems (elemsQ sep ws b) := by
+  simp [splitTrimDropQ, dropItems, elemsQ]
+
+theorem splitTrimDropQ_strict (sep : UInt8) (ws b : Bytes) :
+    splitTrimDropQ sep ws false b = checkItems (strictBody (elemsQ sep ws b)) := by
+  simp [splitTrimDropQ, checkItems, elemsQ]
+
+theorem splitTrimDropQ_eq (sep : UInt8) (ws : Bytes) (skip : Bool) (b : Bytes) :
+    splitTrimDropQ sep ws skip b = specOfElems skip (elemsQ sep ws b) := by
+  cases skip
+  · simp [specOfElems, splitTrimDropQ_strict]
+  · simp [specOfElems, splitTrimDropQ_skip]
+
+/-! ### the quote-aware specification unfolded over one loop iteration -/
+
+theorem spec_endQ (sep : UInt8) (ws t g : Bytes) (skip : Bool) (hfree : freeQ sep .out (t ++ g) = true)
+    (hhead : ∀ y r', t = y :: r' → y ∉ ws) (hg : ∀ y ∈ g, y ∈ ws)
+    (ht : (t = [] ∧ g = []) ∨ ∃ t' x, t = t' ++ [x] ∧ x ∉ ws) :
+    splitTrimDropQ sep ws skip (t ++ g) =
+      if t = [] then (if skip then .ok [] else .error .invalidValue)
+      else if isAscii t then .ok [t] else .error .invalidValue := by
+  have hel : elemsQ sep ws (t ++ g) = [t] := by
+    unfold elemsQ
+    rw [splitQ_free sep .out (t ++ g) hfree]
+    simp [trim_item ws t g hhead hg ht]
+  cases skip with
+  | true =>
+    rw [splitTrimDropQ_skip, hel, dropItems_cons]
+    by_cases h : t = [] <;> by_cases ha : isAscii t = true <;> simp [h, ha, dropItems, keepAscii, consOk]
+  | false =>
+    rw [splitTrimDropQ_strict, hel]
+    have : strictBody [t] = [t] := by simp [strictBody]
+    rw [this, checkItems_cons]
+    by_cases h : t = [] <;> by_cases ha : isAscii t = true <;> simp [h, ha, checkItems, keepAscii, consOk]
+
+theorem elemsQ_sep (sep : UInt8) (ws t g s w r3 : Bytes) (hsw : sep ∉ ws) (hq : sep ≠ 0x22) (hqw : (0x22 : UInt8) ∉ ws)
+    (hfree : freeQ sep .out (t ++ g) = true) (hact : qNext (qAfter .out (t ++ g)) sep = .out)
+    (hhead : ∀ y r', t = y :: r' → y ∉ ws) (hg : ∀ y ∈ g, y ∈ ws)
+    (ht : (t = [] ∧ g = []) ∨ ∃ t' x, t = t' ++ [x] ∧ x ∉ ws)
+    (hs : ∀ x ∈ s, x = sep) (hw : ∀ x ∈ w, x ∈ ws) :
+    elemsQ sep ws (t ++ (g ++ sep :: (s ++ (w ++ r3)))) = t :: (List.replicate s.length [] ++ elemsQ sep ws r3) := by
+  have hlead := elemsQ_leading_ws sep ws w r3 hsw hqw hw
+  unfold elemsQ at hlead ⊢
+  rw [show t ++ (g ++ sep :: (s ++ (w ++ r3))) = (t ++ g) ++ sep :: (s ++ (w ++ r3)) by simp,
+    splitQ_append_sep sep .out (t ++ g) _ hfree hact, splitQ_run sep hq s _ hs]
+  simp only [List.map_cons, List.map_append, List.map_replicate, trim_nil, trim_item ws t g hhead hg ht]
+  rw [hlead]
+
+theorem spec_sepQ (sep : UInt8) (ws t g s w r3 : Bytes) (skip : Bool) (hsw : sep ∉ ws) (hq : sep ≠ 0x22)
+    (hqw : (0x22 : UInt8) ∉ ws)
+    (hfree : freeQ sep .out (t ++ g) = true) (hact : qNext (qAfter .out (t ++ g)) sep = .out)
+    (hhead : ∀ y r', t = y :: r' → y ∉ ws) (hg : ∀ y ∈ g, y ∈ ws)
+    (ht : (t = [] ∧ g = []) ∨ ∃ t' x, t = t' ++ [x] ∧ x ∉ ws)
+    (hs : ∀ x ∈ s, x = sep) (hw : ∀ x ∈ w, x ∈ ws) (hr3 : ∀ y r', r3 = y :: r' → y ∉ ws) :
+    splitTrimDropQ sep ws skip (t ++ (g ++ sep :: (s ++ (w ++ r3)))) =
+      if t = [] then
+        (if skip then (if r3 = [] then .ok [] else splitTrimDropQ sep ws skip r3) else .error .invalidValue)
+      else if isAscii t then
+        (if skip = false ∧ s ≠ [] then .error .invalidValue
+         else if r3 = [] then .ok [t] else consOk t (splitTrimDropQ sep ws skip r3))
+      else .error .invalidValue := by
+  have hel := elemsQ_sep sep ws t g s w r3 hsw hq hqw hfree hact hhead hg ht hs hw
+  cases skip with
+  | true =>
+    simp only [splitTrimDropQ_skip, hel, dropItems_cons, dropItems_replicate]
+    have h3 : dropItems (elemsQ sep ws []) = .ok [] := by
+      simp [elemsQ_nil, dropItems, keepAscii]
+    by_cases h : t = []
+    · by_cases hr : r3 = []
+      · subst hr; simp [h, h3]
+      · simp [h, hr]
+    · by_cases ha : isAscii t = true
+      · by_cases hr : r3 = []
+        · subst hr; simp [h, ha, h3, consOk]
+        · simp [h, ha, hr]
+      · simp [h, ha]
+  | false =>
+    have hm : List.replicate s.length ([] : Bytes) ++ elemsQ sep ws r3 ≠ [] := by
+      simp [elemsQ_ne_nil]
+    simp only [splitTrimDropQ_strict, hel, strictBody_cons _ _ hm, checkItems_cons]
+    by_cases h : t = []
+    · simp [h]
+    · by_cases ha : isAscii t = true
+      · simp only [h, ha, if_false, if_true, true_and]
+        cases s with
+        | nil =>
+          simp only [List.length_nil, List.replicate_zero, List.nil_append, ne_eq, not_true, if_false]
+          by_cases hr : r3 = []
+          · subst hr
+            simp [elemsQ_nil, tailBody_single_nil, checkItems, keepAscii, consOk]
+          · simp only [hr, if_false]
+            cases r3 with
+            | nil => exact absurd rfl hr
+            | cons y r' =>
+              have hne := elemsQ_ne_single_nil sep ws y r' (hr3 y r' rfl)
+              rw [tailBody_eq_strictBody _ (elemsQ_ne_nil sep ws _) hne]
+        | cons x xs =>
+          have hne : List.replicate xs.length ([] : Bytes) ++ elemsQ sep ws r3 ≠ [] := by
+            simp [elemsQ_ne_nil]
+          simp [List.replicate_succ, tailBody_cons _ _ hne, checkItems_cons, consOk]
+      · simp [h, ha]
+
+/-! ### the loop invariant of the quote-aware scanner -/
+
+/-- the longest prefix without active separator: the rest is empty or starts with an active separator -/
+theorem exists_freeQ (sep : UInt8) (q : QState) (l : Bytes) :
+    ∃ e tail, l = e ++ tail ∧ freeQ sep q e = true ∧
+      (tail = [] ∨ (qNext (qAfter q e) sep = .out ∧ ∃ r, tail = sep :: r)) := by
+  induction l generalizing q with
+  | nil => exact ⟨[], [], rfl, rfl, Or.inl rfl⟩
+  | cons x xs ih =>
+    by_cases hx : qNext q x = .out ∧ x = sep
+    · refine ⟨[], x :: xs, rfl, rfl, Or.inr ⟨?_, xs, by rw [hx.2]⟩⟩
+      rw [qAfter_nil, ← hx.2]; exact hx.1
+    · obtain ⟨e, tail, hl, he, htail⟩ := ih (qNext q x)
+      refine ⟨x :: e, tail, by rw [hl]; rfl, (freeQ_cons sep q x e).mpr ⟨hx, he⟩, ?_⟩
+      simpa [qAfter_cons] using htail
+
+theorem decomposeQ (sep : UInt8) (ws rest : Bytes) (hhead : ∀ y r', rest = y :: r' → y ∉ ws) :
+    ∃ t g tail, rest = t ++ (g ++ tail) ∧ freeQ sep .out (t ++ g) = true ∧ (∀ y r', t = y :: r' → y ∉ ws) ∧
+      (∀ y ∈ g, y ∈ ws) ∧ ((t = [] ∧ g = []) ∨ ∃ t' x, t = t' ++ [x] ∧ x ∉ ws) ∧
+      (tail = [] ∨ (qNext (qAfter .out (t ++ g)) sep = .out ∧ ∃ s w r3, tail = sep :: (s ++ (w ++ r3)) ∧
+        (∀ x ∈ s, x = sep) ∧
+        (∀ y r', w ++ r3 = y :: r' → y ≠ sep) ∧ (∀ x ∈ w, x ∈ ws) ∧ (∀ y r', r3 = y :: r' → y ∉ ws))) := by
+  obtain ⟨e, tail, hrest, he, htail⟩ := exists_freeQ sep .out rest
+  obtain ⟨g', m, hrev, hg', hm⟩ := exists_run ws.contains e.reverse
+  have he' : e = m.reverse ++ g'.reverse := by
+    have := congrArg List.reverse hrev
+    simpa using this
+  have hgws : ∀ y ∈ g'.reverse, y ∈ ws := fun y hy => by simpa using hg' y (by simpa using hy)
+  refine ⟨m.reverse, g'.reverse, tail, by rw [hrest, he']; simp, by rw [← he']; exact he, ?_, hgws, ?_, ?_⟩
+  · intro y r' h
+    exact hhead y (r' ++ (g'.reverse ++ tail)) (by rw [hrest, he', h]; simp)
+  · cases m with
+    | nil =>
+      left
+      refine ⟨rfl, ?_⟩
+      cases hgr : g'.reverse with
+      | nil => rfl
+      | cons y ys =>
+        exfalso
+        have hy : y ∈ ws := hgws y (by rw [hgr]; simp)
+        exact hhead y (ys ++ tail) (by rw [hrest, he', hgr]; simp) hy
+    | cons x m' =>
+      right
+      exact ⟨m'.reverse, x, by simp, by simpa using hm x m' rfl⟩
+  · rcases htail with h | ⟨hact, r, h⟩
+    · left; exact h
+    · right
+      refine ⟨by rw [← he']; exact hact, ?_⟩
+      obtain ⟨s, r2, hr, hs, hr2⟩ := exists_run (fun x => x == sep) r
+      obtain ⟨w, r3, hr2', hw, hr3⟩ := exists_run ws.contains r2
+      refine ⟨s, w, r3, by rw [h, hr, hr2'], fun x hx => by simpa using hs x hx, ?_, fun x hx => by simpa using hw x hx,
+        fun z r' h => by simpa using hr3 z r' h⟩
+      intro z r' h
+      have := hr2 z r' (by rw [hr2', h])
+      simpa using this
+
+theorem arrayLoopQ_succ (b sepSet ws : Bytes) (skip : Bool) (mx : Option Nat) (fuel off : Nat) (acc : List Bytes) :
+    arrayLoopQ b sepSet ws skip mx (fuel + 1) off acc =
+      match arrayStepQ b sepSet ws skip mx off acc with
+      | .error e => .error e
+      | .ok (.done items off) => .ok (items, off)
+      | .ok (.more items off) => arrayLoopQ b sepSet ws skip mx fuel off items := rfl
+
+theorem loop_refinesQ (sep : UInt8) (ws : Bytes) (skip : Bool) (hsw : sep ∉ ws) (hq : sep ≠ 0x22)
+    (hqw : (0x22 : UInt8) ∉ ws) :
+    ∀ (n : Nat) (rest pre b : Bytes) (acc : List Bytes) (fuel : Nat), rest.length ≤ n → b = pre ++ rest →
+      (∀ y r', rest = y :: r' → y ∉ ws) → rest.length + 1 ≤ fuel →
+      arrayLoopQ b [sep] ws skip none fuel pre.length acc =
+        match splitTrimDropQ sep ws skip rest with
+        | .ok items => .ok (acc ++ items, b.length)
+        | .error e => .error e := by
+  intro n
+  induction n with
+  | zero =>
+    intro rest pre b acc fuel hn hb hhead hfuel
+    have hr : rest = [] := List.eq_nil_of_length_eq_zero (by omega)
+    subst hr
+    cases fuel with
+    | zero => omega
+    | succ f =>
+      have hstep := stepItem_decomposedQ sep ws pre [] [] [] b pre.length acc skip (by simpa using hb) rfl hsw
+        (by rfl) (by simp) (Or.inl ⟨rfl, rfl⟩) (Or.inl rfl)
+      have hspec := spec_endQ sep ws [] [] skip (by rfl) (by simp) (by simp) (Or.inl ⟨rfl, rfl⟩)
+      simp only [List.append_nil, if_true] at hspec hstep
+      rw [arrayLoopQ_succ, arrayStepQ, hstep, hspec]
+      cases skip with
+      | false => simp
+      | true =>
+        simp only [if_true]
+        rw [stepSep_end _ _ _ _ _ _ _ (by simp [hb])]
+        simp
+  | succ n ih =>
+    intro rest pre b acc fuel hn hb hhead hfuel
+    obtain ⟨t, g, tail, hrest, hfree, hth, hg, ht, htail⟩ := decomposeQ sep ws rest hhead
+    cases fuel with
+    | zero => omega
+    | succ f =>
+    have hb' : b = pre ++ (t ++ (g ++ tail)) := by rw [hb, hrest]
+    have htail' : TailQ sep (t ++ g) tail := by
+      rcases htail with h | ⟨hact, s, w, r3, h, _⟩
+      · exact Or.inl h
+      · exact Or.inr ⟨hact, _, h⟩
+    have hstep := stepItem_decomposedQ sep ws pre t g tail b pre.length acc skip hb' rfl hsw hfree hg ht htail'
+    rw [arrayLoopQ_succ, arrayStepQ, hstep]
+    rcases htail with htl | ⟨hact, s, w, r3, htl, hs, hws, hw, hr3⟩
+    · -- the item runs to the end of the input
+      subst htl
+      have hspec := spec_endQ sep ws t g skip hfree hth hg ht
+      simp only [List.append_nil] at hrest
+      rw [hrest, hspec]
+      have hge : t = [] → g = [] := by
+        intro h
+        rcases ht with ⟨_, h2⟩ | ⟨t', x, h2, _⟩
+        · exact h2
+        · rw [h] at h2; simp at h2
+      by_cases hte : t = []
+      · have := hge hte
+        subst hte this
+        cases skip with
+        | false => simp
+        | true =>
+          simp only [if_true]
+          rw [stepSep_end _ _ _ _ _ _ _ (by simp [hb'])]
+          simp
+      · by_cases ha : isAscii t = true
+        · simp only [hte, ha, if_false, if_true]
+          rw [stepSep_end _ _ _ _ _ _ _ (by simp [hb']; omega)]
+        · simp [hte, ha]
+    · -- an active separator follows
+      subst htl
+      have hspec := spec_sepQ sep ws t g s w r3 skip hsw hq hqw hfree hact hth hg ht hs hw hr3
+      rw [hrest, hspec]
+      have hge : t = [] → g = [] := by
+        intro h
+        rcases ht with ⟨_, h2⟩ | ⟨t', x, h2, _⟩
+        · exact h2
+        · rw [h] at h2; simp at h2
+      have hlen3 : r3.length ≤ n := by
+        have : rest.length = t.length + g.length + 1 + s.length + w.length + r3.length := by
+          rw [hrest]; simp; omega
+        omega
+      have hfuel3 : r3.length + 1 ≤ f := by
+        have : rest.length = t.length + g.length + 1 + s.length + w.length + r3.length := by
+          rw [hrest]; simp; omega
+        omega
+      have hsepstep : ∀ acc', stepSep b [sep] ws skip none (pre.length + t.length + g.length) acc' =
+          if skip = false ∧ s ≠ [] then .error .invalidValue
+          else if r3 = [] then .ok (.done acc' b.length)
+          else .ok (.more acc' (pre.length + t.length + g.length + 1 + s.length + w.length)) :=
+        fun acc' => stepSep_decomposed sep ws (pre ++ (t ++ g)) s w r3 b _ acc' skip (by rw [hb']; simp)
+          (by simp; omega) hs hws hw hr3
+      have hnext : ∀ acc', r3 ≠ [] →
+          arrayLoopQ b [sep] ws skip none f (pre.length + t.length + g.length + 1 + s.length + w.length) acc' =
+            match splitTrimDropQ sep ws skip r3 with
+            | .ok items => .ok (acc' ++ items, b.length)
+            | .error e => .error e := by
+        intro acc' _
+        have := ih r3 (pre ++ (t ++ (g ++ sep :: (s ++ w)))) b acc' f hlen3 (by rw [hb']; simp) hr3 hfuel3
+        rw [← this]
+        congr 1
+        simp; omega
+      by_cases hte : t = []
+      · have := hge hte
+        subst hte this
+        cases skip with
+        | false => simp
+        | true =>
+          simp only [if_true, List.length_nil, Nat.add_zero] at hsepstep hnext ⊢
+          rw [hsepstep acc]
+          by_cases h3 : r3 = []
+          · simp [h3]
+          · simp only [h3, if_false, Bool.true_eq_false, false_and]
+            rw [hnext acc h3]
+      · by_cases ha : isAscii t = true
+        · simp only [hte, ha, if_false, if_true]
+          rw [hsepstep (acc ++ [t])]
+          by_cases hbad : skip = false ∧ s ≠ []
+          · simp [hbad]
+          · simp only [hbad, if_false]
+            by_cases h3 : r3 = []
+            · simp [h3]
+            · simp only [h3, if_false]
+              rw [hnext (acc ++ [t]) h3]
+              cases splitTrimDropQ sep ws skip r3 with
+              | error e => simp [consOk]
+              | ok items => simp [consOk]
+        · simp [hte, ha]
+
+/-! ### the refinement theorem of the quote-aware scanner -/
+
+theorem specQ_leading_ws (sep : UInt8) (ws w b : Bytes) (skip : Bool) (hsw : sep ∉ ws) (hqw : (0x22 : UInt8) ∉ ws)
+    (hw : ∀ x ∈ w, x ∈ ws) : splitTrimDropQ sep ws skip (w ++ b) = splitTrimDropQ sep ws skip b := by
+  rw [splitTrimDropQ_eq, splitTrimDropQ_eq, elemsQ_leading_ws sep ws w b hsw hqw hw]
+
+/-- `_parse_string_array(…, quote_aware=True)` started at `_parsed_length = pre.length` on the buffer `pre ++ b`, one
+single-byte separator that is neither a whitespace byte nor the double quote, whitespace without the double quote, no
+`max_item_num`: the items are exactly `splitTrimDropQ sep ws skip b`, and the whole buffer is consumed.  `b` is
+arbitrary (unbalanced quotes, backslashes, non-ASCII bytes included). -/
+theorem array_refines_atQ (sep : UInt8) (ws : Bytes) (skip : Bool) (hsw : sep ∉ ws) (hq : sep ≠ 0x22)
+    (hqw : (0x22 : UInt8) ∉ ws) (pre b : Bytes) :
+    parseStringArrayQ (pre ++ b) pre.length [sep] ws skip none =
+      match splitTrimDropQ sep ws skip b with
+      | .ok items => .ok (items, (pre ++ b).length)
+      | .error e => .error e := by
+  obtain ⟨w, rest, hb, hw, hrest⟩ := exists_run ws.contains b
+  have hw' : ∀ x ∈ w, x ∈ ws := fun x hx => by simpa using hw x hx
+  have hrest' : ∀ y r', rest = y :: r' → y ∉ ws := fun y r' h => by simpa using hrest y r' h
+  unfold parseStringArrayQ
+  rw [skipWs_run ws pre w rest (by rw [hb]) rfl hw' hrest']
+  have := loop_refinesQ sep ws skip hsw hq hqw rest.length rest (pre ++ w) (pre ++ b) [] ((pre ++ b).length + 1)
+    (Nat.le_refl _) (by rw [hb]; simp) hrest' (by rw [hb]; simp; omega)
+  simp only [List.length_append] at this ⊢
+  rw [this, hb, specQ_leading_ws sep ws w rest skip hsw hqw hw']
+  cases splitTrimDropQ sep ws skip rest <;> simp
+
+
+/-! ### invariance of the quote-aware specification under insignificant spelling
+
+The edits are made OUTSIDE quoted-strings: the prefix `a` in front of the edited place ends in state `out`. -/
+
+/-- what a prefix `a` contributes: complete elements `init` and a partial element `last`, glued to the first element
+of whatever follows (which is split from the state in which `a` ends) -/
+theorem splitQ_prefix (sep : UInt8) (q : QState) (a : Bytes) :
+    ∃ init last, ∀ r h tl, splitQ sep (qAfter q a) r = h :: tl → splitQ sep q (a ++ r) = init ++ (last ++ h) :: tl := by
+  induction a generalizing q with
+  | nil => exact ⟨[], [], fun r h tl hr => by simpa [qAfter] using hr⟩
+  | cons x a' ih =>
+    obtain ⟨init', last', h'⟩ := ih (qNext q x)
+    by_cases hx : qNext q x = .out ∧ x = sep
+    · refine ⟨[] :: init', last', fun r h tl hr => ?_⟩
+      rw [List.cons_append, splitQ_cons_active sep q x _ hx]
+      rw [qAfter_cons, hx.1] at hr
+      have := h' r h tl (by rw [hx.1]; exact hr)
+      rw [hx.1] at this
+      simp [this]
+    · cases init' with
+      | nil =>
+        refine ⟨[], x :: last', fun r h tl hr => ?_⟩
+        have := h' r h tl (by simpa [qAfter_cons] using hr)
+        obtain ⟨h2, tl2, h3, h4⟩ := splitQ_cons_inactive sep q x (a' ++ r) hx
+        rw [this] at h3
+        simp at h3
+        rw [List.cons_append, h4, ← h3.1, ← h3.2]
+        simp
+      | cons i0 is =>
+        refine ⟨(x :: i0) :: is, last', fun r h tl hr => ?_⟩
+        have := h' r h tl (by simpa [qAfter_cons] using hr)
+        obtain ⟨h2, tl2, h3, h4⟩ := splitQ_cons_inactive sep q x (a' ++ r) hx
+        rw [this] at h3
+        simp at h3
+        rw [List.cons_append, h4, ← h3.1, ← h3.2]
+        simp
+
+theorem splitQ_sep_cons (sep : UInt8) (hq : sep ≠ 0x22) (r : Bytes) :
+    splitQ sep .out (sep :: r) = [] :: splitQ sep .out r :=
+  splitQ_cons_active sep .out sep r ⟨qNext_out_sep sep hq, rfl⟩
+
+theorem elemsQ_trailing_ws (sep : UInt8) (ws b w : Bytes) (hsw : sep ∉ ws) (hw : ∀ x ∈ w, x ∈ ws) :
+    elemsQ sep ws (b ++ w) = elemsQ sep ws b := by
+  obtain ⟨init, last, h⟩ := splitQ_prefix sep .out b
+  have hs : sep ∉ w := fun hm => hsw (hw sep hm)
+  have h1 := h w w [] (splitQ_free sep _ w (freeQ_of_not_mem sep _ w hs))
+  have h2 := h [] [] [] (by simp [splitQ])
+  simp only [List.append_nil] at h2
+  unfold elemsQ
+  rw [h1, h2]
+  simp [trim_append_ws ws last w hw]
+
+theorem elemsQ_ws_before_sep (sep : UInt8) (ws a w r : Bytes) (hsw : sep ∉ ws) (hq : sep ≠ 0x22)
+    (hqw : (0x22 : UInt8) ∉ ws) (ha : qAfter .out a = .out) (hw : ∀ x ∈ w, x ∈ ws) :
+    elemsQ sep ws (a ++ (w ++ sep :: r)) = elemsQ sep ws (a ++ sep :: r) := by
+  obtain ⟨init, last, h⟩ := splitQ_prefix sep .out a
+  rw [ha] at h
+  obtain ⟨hf, hqa⟩ := ws_run_free sep ws w hsw hqw hw
+  have h1 := h (w ++ sep :: r) w (splitQ sep .out r)
+    (splitQ_append_sep sep .out w r hf (by rw [hqa]; exact qNext_out_sep sep hq))
+  have h2 := h (sep :: r) [] (splitQ sep .out r) (splitQ_sep_cons sep hq r)
+  unfold elemsQ
+  rw [h1, h2]
+  simp [trim_append_ws ws last w hw]
+
+theorem elemsQ_ws_after_sep (sep : UInt8) (ws a w r : Bytes) (hsw : sep ∉ ws) (hq : sep ≠ 0x22)
+    (hqw : (0x22 : UInt8) ∉ ws) (ha : qAfter .out a = .out) (hw : ∀ x ∈ w, x ∈ ws) :
+    elemsQ sep ws (a ++ sep :: (w ++ r)) = elemsQ sep ws (a ++ sep :: r) := by
+  obtain ⟨init, last, h⟩ := splitQ_prefix sep .out a
+  rw [ha] at h
+  have h1 := h (sep :: (w ++ r)) [] (splitQ sep .out (w ++ r)) (splitQ_sep_cons sep hq _)
+  have h2 := h (sep :: r) [] (splitQ sep .out r) (splitQ_sep_cons sep hq r)
+  have := elemsQ_leading_ws sep ws w r hsw hqw hw
+  unfold elemsQ at this ⊢
+  rw [h1, h2]
+  simp [this]
+
+theorem dropItemsQ_extra_sep (sep : UInt8) (ws a r : Bytes) (hq : sep ≠ 0x22) (ha : qAfter .out a = .out) :
+    dropItems (elemsQ sep ws (a ++ sep :: sep :: r)) = dropItems (elemsQ sep ws (a ++ sep :: r)) := by
+  obtain ⟨init, last, h⟩ := splitQ_prefix sep .out a
+  rw [ha] at h
+  have h1 := h (sep :: sep :: r) [] ([] :: splitQ sep .out r)
+    (by rw [splitQ_sep_cons sep hq, splitQ_sep_cons sep hq])
+  have h2 := h (sep :: r) [] (splitQ sep .out r) (splitQ_sep_cons sep hq r)
+  apply dropItems_eq_of_filter
+  unfold elemsQ
+  rw [h1, h2]
+  simp [trim_nil, List.filter_cons]
+
+theorem dropItemsQ_leading_sep (sep : UInt8) (ws r : Bytes) (hq : sep ≠ 0x22) :
+    dropItems (elemsQ sep ws (sep :: r)) = dropItems (elemsQ sep ws r) := by
+  apply dropItems_eq_of_filter
+  simp [elemsQ, splitQ_sep_cons sep hq, trim_nil]
+
+theorem dropItemsQ_trailing_sep (sep : UInt8) (ws a : Bytes) (hq : sep ≠ 0x22) (ha : qAfter .out a = .out) :
+    dropItems (elemsQ sep ws (a ++ [sep])) = dropItems (elemsQ sep ws a) := by
+  obtain ⟨init, last, h⟩ := splitQ_prefix sep .out a
+  rw [ha] at h
+  have h1 := h [sep] [] [[]] (by rw [splitQ_sep_cons sep hq]; simp [splitQ])
+  have h2 := h [] [] [] (by simp [splitQ])
+  simp only [List.append_nil] at h2
+  apply dropItems_eq_of_filter
+  unfold elemsQ
+  rw [h1, h2]
+  simp [trim_nil, List.filter_cons]
+
+/-! ### the canonical spelling parses back (quote-aware) -/
+
+theorem elemsQ_join (sep : UInt8) (ws w : Bytes) (hsw : sep ∉ ws) (hq : sep ≠ 0x22) (hqw : (0x22 : UInt8) ∉ ws)
+    (hw : ∀ x ∈ w, x ∈ ws) (items : List Bytes) (hne : items ≠ [])
+    (hi : ∀ i ∈ items, freeQ sep .out i = true ∧ qAfter .out i = .out ∧ trim ws i = i) :
+    elemsQ sep ws (joinWith (sep :: w) items) = items := by
+  induction items with
+  | nil => exact absurd rfl hne
+  | cons i is ih =>
+    cases is with
+    | nil =>
+      have := hi i (by simp)
+      simp [joinWith, elemsQ, splitQ_free sep .out i this.1, this.2.2]
+    | cons i2 is2 =>
+      have h1 := hi i (by simp)
+      have ih' := ih (by simp) (fun j hj => hi j (by simp [hj]))
+      have : joinWith (sep :: w) (i :: i2 :: is2) = i ++ sep :: (w ++ joinWith (sep :: w) (i2 :: is2)) := by
+        simp [joinWith]
+      rw [this]
+      have hlead := elemsQ_leading_ws sep ws w (joinWith (sep :: w) (i2 :: is2)) hsw hqw hw
+      unfold elemsQ at ih' hlead ⊢
+      rw [splitQ_append_sep sep .out i _ h1.1 (by rw [h1.2.1]; exact qNext_out_sep sep hq)]
+      simp only [List.map_cons, h1.2.2]
+      rw [hlead, ih']
+
+theorem quotedBody_free (sep : UInt8) (q : QState) (body tl : Bytes) (h : quotedBody q body = true) :
+    freeQ sep q (body ++ tl) = freeQ sep .inq tl ∧ qAfter q (body ++ tl) = qAfter .inq tl := by
+  induction body generalizing q with
+  | nil =>
+    simp [quotedBody] at h
+    subst h; simp
+  | cons x xs ih =>
+    simp only [quotedBody, Bool.and_eq_true, Bool.not_eq_true', decide_eq_false_iff_not] at h
+    obtain ⟨h1, h2⟩ := ih (qNext q x) h.2
+    refine ⟨?_, by rw [List.cons_append, qAfter_cons]; exact h2⟩
+    simp only [List.cons_append, freeQ, h.1, decide_false, Bool.false_and, Bool.not_false, Bool.true_and]
+    exact h1
+
+/-- A QUOTED-STRING IS ONE PIECE: `"` body `"` (whatever separators the body contains) has no active separator and
+ends outside. -/
+theorem quotedString_free (sep : UInt8) (hq : sep ≠ 0x22) (body : Bytes) (h : quotedBody .inq body = true) :
+    freeQ sep .out (0x22 :: (body ++ [0x22])) = true ∧ qAfter .out (0x22 :: (body ++ [0x22])) = .out := by
+  obtain ⟨h1, h2⟩ := quotedBody_free sep .inq body [0x22] h
+  have hn : qNext .out (0x22 : UInt8) = .inq := by simp [qNext]
+  refine ⟨?_, ?_⟩
+  · rw [freeQ_cons, hn, h1]
+    refine ⟨by simp, ?_⟩
+    simp [freeQ, qNext, Ne.symm hq]
+  · rw [qAfter_cons, hn, h2]
+    simp [qAfter, qNext]
+
+/-- a name (no separator, no double quote) followed by a quoted-string -/
+theorem name_quoted_free (sep : UInt8) (hq : sep ≠ 0x22) (name body : Bytes) (hn1 : sep ∉ name)
+    (hn2 : (0x22 : UInt8) ∉ name) (h : quotedBody .inq body = true) :
+    freeQ sep .out (name ++ 0x22 :: (body ++ [0x22])) = true ∧
+      qAfter .out (name ++ 0x22 :: (body ++ [0x22])) = .out := by
+  obtain ⟨h1, h2⟩ := quotedString_free sep hq body h
+  have hqa := qAfter_out_of_no_quote name hn2
+  refine ⟨?_, by rw [qAfter_append, hqa]; exact h2⟩
+  rw [freeQ_append, hqa]
+  exact ⟨freeQ_of_not_mem sep .out name hn1, h1⟩
+
+/-! ### no crash, enough fuel — the quote-aware scanner, every parameter combination -/
+
+theorem sepSearchQ_some (b : Bytes) (off : Nat) (seps : List Bytes) : ∀ (n e r : Nat) (q : QState),
+    sepSearchQ b off seps n e q = some r → off ≤ e → e + n ≤ b.length + 1 → off ≤ r ∧ r ≤ b.length := by
+  intro n
+  induction n with
+  | zero => intro e r q h; simp [sepSearchQ] at h
+  | succ n ih =>
+    intro e r q h he hn
+    simp only [sepSearchQ] at h
+    split at h
+    · exact ih (e + 1) r _ h (by omega) (by omega)
+    · cases hf : seps.find? (fun s => s.isSuffixOf (slice b off e)) with
+      | some s =>
+        simp only [hf] at h
+        cases h
+        have hsuf := List.find?_some hf
+        have hle := (List.isSuffixOf_iff_suffix.mp hsuf).length_le
+        simp [slice] at hle
+        omega
+      | none =>
+        simp only [hf] at h
+        exact ih (e + 1) r _ h (by omega) (by omega)
+
+theorem findItemEndQ_mayEnd (b : Bytes) (off : Nat) (seps : List Bytes) (ho : off ≤ b.length) :
+    ∃ itemEnd, findItemEndQ b off seps true = some itemEnd ∧ off ≤ itemEnd ∧ itemEnd ≤ b.length := by
+  unfold findItemEndQ
+  cases hs : sepSearchQ b off seps (b.length + 1 - off) off .out with
+  | some e => exact ⟨e, rfl, sepSearchQ_some b off seps _ _ _ _ hs (Nat.le_refl _) (by omega)⟩
+  | none => exact ⟨b.length, rfl, ho, Nat.le_refl _⟩
+
+theorem until_totalQ (b : Bytes) (off : Nat) (seps : List Bytes) (ws : Bytes) (ho : off ≤ b.length)
+    (hhead : NoWsHead ws (b.drop off)) :
+    (∃ item n, parseStringUntilSeparatorQ b off seps true ws = .ok (item, n) ∧ off + n ≤ b.length) ∨
+      parseStringUntilSeparatorQ b off seps true ws = .error .invalidValue := by
+  obtain ⟨itemEnd, h1, h2, h3⟩ := findItemEndQ_mayEnd b off seps ho
+  obtain ⟨c, h4, h5⟩ := trimCount_inside b ws off itemEnd h3 hhead
+  unfold parseStringUntilSeparatorQ
+  have hn1 : ¬ itemEnd < off := by omega
+  have hn2 : ¬ itemEnd - off < c := by omega
+  simp only [h1, hn1, if_false, h4, hn2]
+  rcases asciiText_cases (slice b off (itemEnd - c)) with h | h
+  · left; exact ⟨_, _, by rw [h], by omega⟩
+  · right; rw [h]
+
+theorem stepItem_totalQ (b sepSet ws : Bytes) (skip : Bool) (off : Nat) (acc : List Bytes) (ho : off ≤ b.length)
+    (hhead : NoWsHead ws (b.drop off)) :
+    (∃ acc' off', stepItemQ b sepSet ws skip off acc = .ok (acc', off') ∧ off ≤ off' ∧ off' ≤ b.length ∧
+        NoWsHead ws (b.drop off')) ∨
+      stepItemQ b sepSet ws skip off acc = .error .invalidValue := by
+  unfold stepItemQ
+  rcases until_totalQ b off (sepSet.map fun x => [x]) ws ho hhead with ⟨item, n, h, hn⟩ | h
+  · simp only [h]
+    by_cases hz : n = 0
+    · subst hz
+      cases skip with
+      | false => right; simp
+      | true =>
+        obtain ⟨off', hs1, hs2, hs3, hs4⟩ := skipWs_total b ws off ho
+        left; exact ⟨acc, off', by simp [hs1], hs2, hs3, hs4⟩
+    · simp only [ne_eq, hz, not_false_eq_true, if_true]
+      rcases asciiText_cases (slice b off (off + n)) with ha | ha
+      · obtain ⟨off', hs1, hs2, hs3, hs4⟩ := skipWs_total b ws (off + n) hn
+        left; exact ⟨acc ++ [slice b off (off + n)], off', by simp [ha, hs1], by omega, hs3, hs4⟩
+      · right; simp [ha]
+  · right; simp [h]
+
+theorem loop_totalQ (b sepSet ws : Bytes) (skip : Bool) (mx : Option Nat) : ∀ (fuel off : Nat) (acc : List Bytes),
+    off ≤ b.length → b.length + 1 ≤ off + fuel → NoWsHead ws (b.drop off) →
+    (∃ items off', arrayLoopQ b sepSet ws skip mx fuel off acc = .ok (items, off') ∧ off' ≤ b.length) ∨
+      arrayLoopQ b sepSet ws skip mx fuel off acc = .error .invalidValue := by
+  intro fuel
+  induction fuel with
+  | zero => intro off acc ho hf; omega
+  | succ f ih =>
+    intro off acc ho hf hhead
+    rw [arrayLoopQ_succ, arrayStepQ]
+    rcases stepItem_totalQ b sepSet ws skip off acc ho hhead with ⟨acc', off1, h1, h2, h3, _⟩ | h1
+    · simp only [h1]
+      rcases stepSep_total b sepSet ws skip mx off1 acc' h3 with ⟨off2, h4, h5⟩ | ⟨off2, h4, h5, h6, h7⟩ | h4
+      · left; exact ⟨acc', off2, by simp [h4], h5⟩
+      · simp only [h4]
+        exact ih off2 acc' h6 (by omega) h7
+      · right; simp [h4]
+    · right; simp [h1]
+
+/-- `_parse_string_array(…, quote_aware=True)` from any `_parsed_length` inside the buffer: items and a position
+inside the buffer, or `InvalidValue` — nothing else, for every separator set, whitespace set, `skip_empty`,
+`max_item_num`, balanced or unbalanced quotes. -/
+theorem array_totalQ (b sepSet ws : Bytes) (skip : Bool) (mx : Option Nat) (off : Nat) (ho : off ≤ b.length) :
+    (∃ items off', parseStringArrayQ b off sepSet ws skip mx = .ok (items, off') ∧ off' ≤ b.length) ∨
+      parseStringArrayQ b off sepSet ws skip mx = .error .invalidValue := by
+  unfold parseStringArrayQ
+  obtain ⟨off', hs1, hs2, hs3, hs4⟩ := skipWs_total b ws off ho
+  simp only [hs1]
+  exact loop_totalQ b sepSet ws skip mx (b.length + 1) off' [] hs3 (by omega) hs4
+
+/-! ### the items the quote-aware scanner returns -/
+
+/-- items of `_parse_string_array(…, quote_aware=True)` from the start of the buffer, one separator, no `max_item_num` -/
+def scanItemsQ (sep : UInt8) (ws : Bytes) (skip : Bool) (b : Bytes) : Except PErr (List Bytes) :=
+  match parseStringArrayQ b 0 [sep] ws skip none with
+  | .ok (items, _) => .ok items
+  | .error e => .error e
+
+theorem scanItemsQ_eq (sep : UInt8) (ws : Bytes) (skip : Bool) (hsw : sep ∉ ws) (hq : sep ≠ 0x22)
+    (hqw : (0x22 : UInt8) ∉ ws) (b : Bytes) :
+    scanItemsQ sep ws skip b = splitTrimDropQ sep ws skip b := by
+  unfold scanItemsQ
+  have := array_refines_atQ sep ws skip hsw hq hqw [] b
+  simp only [List.nil_append, List.length_nil] at this
+  rw [this]
+  cases splitTrimDropQ sep ws skip b <;> rfl
+
+
+/-! ### without a double quote the quote-aware scanner is the plain one -/
+
+theorem splitQ_eq_splitSep (sep : UInt8) (b : Bytes) (h : (0x22 : UInt8) ∉ b) : splitQ sep .out b = splitSep sep b := by
+  induction b with
+  | nil => rfl
+  | cons x xs ih =>
+    have hx : x ≠ 0x22 := fun hc => h (by simp [hc])
+    have hn : qNext .out x = .out := by simp [qNext, hx]
+    have ih' := ih (fun hm => h (by simp [hm]))
+    by_cases hs : x = sep
+    · subst hs
+      simp [splitQ, splitSep, hn, ih']
+    · simp [splitQ, splitSep, hn, hs, ih']
+
+theorem splitTrimDropQ_eq_plain (sep : UInt8) (ws : Bytes) (skip : Bool) (b : Bytes) (h : (0x22 : UInt8) ∉ b) :
+    splitTrimDropQ sep ws skip b = splitTrimDrop sep ws skip b := by
+  unfold splitTrimDropQ splitTrimDrop
+  rw [splitQ_eq_splitSep sep b h]
+
+/-! ### cost of the quote-aware scanner: interpreter steps are linear in the input -/
+
+theorem sepSearchTicksQ_single (b : Bytes) (off : Nat) (sep : UInt8) : ∀ (n e : Nat) (q : QState),
+    (∀ r, sepSearchQ b off [[sep]] n e q = some r →
+      e ≤ r + 1 ∧ sepSearchTicksQ b off [[sep]] n e q ≤ 3 * (r + 2 - e)) ∧
+    (sepSearchQ b off [[sep]] n e q = none → sepSearchTicksQ b off [[sep]] n e q ≤ 3 * n) := by
+  intro n
+  induction n with
+  | zero => intro e q; simp [sepSearchQ, sepSearchTicksQ]
+  | succ n ih =>
+    intro e q
+    obtain ⟨ih1, ih2⟩ := ih (e + 1) (qStepAt b e q)
+    by_cases hq : q = .out
+    · cases hf : [[sep]].find? (fun s => s.isSuffixOf (slice b off e)) with
+      | some s =>
+        have hs : s = [sep] := by
+          have := List.mem_of_find?_eq_some hf
+          simpa using this
+        subst hs
+        simp only [sepSearchQ, sepSearchTicksQ, hq, ne_eq, not_true, if_false, hf, triedCount_single]
+        constructor
+        · intro r hr
+          cases hr
+          simp; omega
+        · intro h; cases h
+      | none =>
+        simp only [sepSearchQ, sepSearchTicksQ, hq, ne_eq, not_true, if_false, hf, triedCount_single]
+        rw [hq] at ih1 ih2
+        constructor
+        · intro r hr
+          obtain ⟨h1, h2⟩ := ih1 r hr
+          omega
+        · intro h
+          have := ih2 h
+          omega
+    · simp only [sepSearchQ, sepSearchTicksQ, ne_eq, hq, not_false_eq_true, if_true]
+      constructor
+      · intro r hr
+        obtain ⟨h1, h2⟩ := ih1 r hr
+        omega
+      · intro h
+        have := ih2 h
+        omega
+
+theorem untilTicksQ_decomposed (sep : UInt8) (ws pre t g tail b : Bytes) (off : Nat)
+    (hb : b = pre ++ (t ++ (g ++ tail))) (ho : off = pre.length)
+    (hfree : freeQ sep .out (t ++ g) = true) (hg : ∀ y ∈ g, y ∈ ws)
+    (ht : (t = [] ∧ g = []) ∨ ∃ t' x, t = t' ++ [x] ∧ x ∉ ws)
+    (htail : TailQ sep (t ++ g) tail) :
+    untilTicksQ b off [[sep]] true ws ≤ 3 * t.length + 4 * g.length + 8 := by
+  have hend := until_itemEndQ sep pre (t ++ g) tail b off (by simpa using hb) ho hfree htail
+  have hsearch : sepSearchTicksQ b off [[sep]] (b.length + 1 - off) off .out ≤ 3 * ((t ++ g).length + 2) := by
+    obtain ⟨h1, h2⟩ := sepSearchTicksQ_single b off sep (b.length + 1 - off) off .out
+    cases hs : sepSearchQ b off [[sep]] (b.length + 1 - off) off .out with
+    | none =>
+      have := h2 hs
+      have hl : b.length + 1 - off = (t ++ g).length + tail.length + 1 := by simp [hb, ho]; omega
+      rcases htail with h | ⟨_, r, h⟩
+      · subst h; simp at hl ⊢; omega
+      · -- an active separator is present: the search cannot fail
+        exfalso
+        have hfe : findItemEndQ b off [[sep]] true = some b.length := by simp [findItemEndQ, hs]
+        rw [hend] at hfe
+        have hlen : b.length = off + (t ++ g).length + tail.length := by simp [hb, ho]; omega
+        rw [h] at hlen
+        simp at hfe hlen
+        omega
+    | some r =>
+      have hfe : findItemEndQ b off [[sep]] true = some r := by simp [findItemEndQ, hs]
+      rw [hend] at hfe
+      cases hfe
+      have := (h1 _ hs).2
+      omega
+  have htrim : trimTicks b ws off (off + (t ++ g).length) ≤ g.length + 1 := by
+    unfold trimTicks
+    rcases ht with ⟨h1, h2⟩ | ⟨t', x, h1, hx⟩
+    · subst h1 h2; simp
+    · have htake : b.take (off + (t ++ g).length) = pre ++ (t ++ g) := by
+        rw [hb, ho, show pre ++ (t ++ (g ++ tail)) = (pre ++ (t ++ g)) ++ tail by simp,
+          show pre.length + (t ++ g).length = (pre ++ (t ++ g)).length by simp]
+        exact List.take_left
+      have hpos : off < off + (t ++ g).length := by subst h1; simp; omega
+      simp only [hpos, if_true, htake]
+      subst h1
+      have : (pre ++ (t' ++ [x] ++ g)).reverse = g.reverse ++ x :: (t'.reverse ++ pre.reverse) := by simp
+      rw [this, trimRunTicks_run ws g.reverse x _ (fun y hy => hg y (by simpa using hy)) hx]
+      simp
+  unfold untilTicksQ
+  have hlt : ¬ (off + (t ++ g).length < off) := by omega
+  simp only [hend, hlt, if_false]
+  rw [List.length_append] at hsearch htrim hlt ⊢
+  generalize trimTicks b ws off (off + (t.length + g.length)) = T at htrim ⊢
+  generalize sepSearchTicksQ b off [[sep]] (b.length + 1 - off) off .out = S at hsearch ⊢
+  show S + (T + 1) ≤ _
+  omega
+
+theorem stepItemQ_off (sep : UInt8) (ws pre t g tail b : Bytes) (off : Nat) (acc : List Bytes) (skip : Bool)
+    (hb : b = pre ++ (t ++ (g ++ tail))) (ho : off = pre.length) (hsw : sep ∉ ws)
+    (hfree : freeQ sep .out (t ++ g) = true) (hg : ∀ y ∈ g, y ∈ ws)
+    (ht : (t = [] ∧ g = []) ∨ ∃ t' x, t = t' ++ [x] ∧ x ∉ ws)
+    (htail : TailQ sep (t ++ g) tail) (acc' : List Bytes) (off1 : Nat)
+    (h : stepItemQ b [sep] ws skip off acc = .ok (acc', off1)) : off1 = off + t.length + g.length := by
+  rw [stepItem_decomposedQ sep ws pre t g tail b off acc skip hb ho hsw hfree hg ht htail] at h
+  by_cases hte : t = []
+  · have hge : g = [] := by
+      rcases ht with ⟨_, h2⟩ | ⟨t', x, h2, _⟩
+      · exact h2
+      · rw [hte] at h2; simp at h2
+    subst hte hge
+    cases skip <;> simp at h
+    simp [h.2]
+  · by_cases ha : isAscii t = true
+    · simp [hte, ha] at h; omega
+    · simp [hte, ha] at h
+
+theorem stepItemTicksQ_decomposed (sep : UInt8) (ws pre t g tail b : Bytes) (off : Nat) (skip : Bool)
+    (hb : b = pre ++ (t ++ (g ++ tail))) (ho : off = pre.length) (hsw : sep ∉ ws)
+    (hfree : freeQ sep .out (t ++ g) = true) (hg : ∀ y ∈ g, y ∈ ws)
+    (ht : (t = [] ∧ g = []) ∨ ∃ t' x, t = t' ++ [x] ∧ x ∉ ws)
+    (htail : TailQ sep (t ++ g) tail) :
+    stepItemTicksQ b [sep] ws skip off ≤ 3 * t.length + 5 * g.length + 12 := by
+  have htl : ∀ y r', tail = y :: r' → y ∉ ws := by
+    intro y r' h
+    rcases htail with h0 | ⟨_, r, h0⟩
+    · rw [h0] at h; cases h
+    · rw [h0] at h; cases h; exact hsw
+  have hu := untilTicksQ_decomposed sep ws pre t g tail b off hb ho hfree hg ht htail
+  unfold stepItemTicksQ
+  rw [show ([sep].map fun x => [x]) = [[sep]] from rfl,
+    until_decomposedQ sep ws pre t g tail b off hb ho hfree hg ht htail]
+  generalize untilTicksQ b off [[sep]] true ws = U at hu ⊢
+  by_cases hte : t = []
+  · have hge : g = [] := by
+      rcases ht with ⟨_, h⟩ | ⟨t', x, h, _⟩
+      · exact h
+      · rw [hte] at h; simp at h
+    subst hte hge
+    have hsk : skipWsTicks b ws off ≤ ([] : Bytes).length + 2 :=
+      skipWsTicks_run ws pre [] tail (by simpa using hb) ho (by simp) htl
+    generalize skipWsTicks b ws off = K at hsk ⊢
+    cases skip <;> simp [asciiText, isAscii] at hu hsk ⊢
+    · omega
+    · show U + (2 + K) ≤ 12
+      omega
+  · have hlen : t.length ≠ 0 := by
+      cases t with
+      | nil => exact absurd rfl hte
+      | cons x xs => simp
+    by_cases hasc : isAscii t = true
+    · have hsl : slice b off (off + t.length) = t := slice_mid' pre t (g ++ tail) hb ho (by rw [ho])
+      have hsk : skipWsTicks b ws (off + t.length) ≤ g.length + 2 :=
+        skipWsTicks_run ws (pre ++ t) g tail (by simp [hb]) (by simp [ho]) hg htl
+      simp [asciiText, hasc, hlen, hsl]
+      generalize skipWsTicks b ws (off + t.length) = K at hsk ⊢
+      show U + (2 + K) ≤ _
+      omega
+    · simp [asciiText, hasc]; omega
+
+theorem loop_ticksQ (sep : UInt8) (ws : Bytes) (skip : Bool) (hsw : sep ∉ ws) :
+    ∀ (n : Nat) (rest pre b : Bytes) (acc : List Bytes) (fuel : Nat), rest.length ≤ n → b = pre ++ rest →
+      (∀ y r', rest = y :: r' → y ∉ ws) →
+      arrayLoopTicksQ b [sep] ws skip none fuel pre.length acc ≤ 21 * rest.length + 13 := by
+  intro n
+  induction n with
+  | zero =>
+    intro rest pre b acc fuel hn hb hhead
+    have hr : rest = [] := List.eq_nil_of_length_eq_zero (by omega)
+    subst hr
+    cases fuel with
+    | zero => simp [arrayLoopTicksQ]
+    | succ f =>
+      have hit := stepItemTicksQ_decomposed sep ws pre [] [] [] b pre.length skip (by simpa using hb) rfl hsw
+        (by rfl) (by simp) (Or.inl ⟨rfl, rfl⟩) (Or.inl rfl)
+      have hstep := stepItem_decomposedQ sep ws pre [] [] [] b pre.length acc skip (by simpa using hb) rfl hsw
+        (by rfl) (by simp) (Or.inl ⟨rfl, rfl⟩) (Or.inl rfl)
+      simp only [if_true] at hstep
+      simp only [arrayLoopTicksQ, arrayStepTicksQ, arrayStepQ, hstep]
+      generalize stepItemTicksQ b [sep] ws skip pre.length = I at hit ⊢
+      cases skip with
+      | false => simp at hit ⊢; omega
+      | true =>
+        simp only [if_true]
+        rw [stepSep_end _ _ _ _ _ _ _ (by simp [hb])]
+        have : stepSepTicks b [sep] ws true pre.length = 1 := by simp [stepSepTicks, hb]
+        rw [this]
+        simp at hit ⊢; omega
+  | succ n ih =>
+    intro rest pre b acc fuel hn hb hhead
+    obtain ⟨t, g, tail, hrest, hfree, hth, hg, ht, htail⟩ := decomposeQ sep ws rest hhead
+    cases fuel with
+    | zero => simp [arrayLoopTicksQ]
+    | succ f =>
+    have hb' : b = pre ++ (t ++ (g ++ tail)) := by rw [hb, hrest]
+    have htail' : TailQ sep (t ++ g) tail := by
+      rcases htail with h | ⟨hact, s, w, r3, h, _⟩
+      · exact Or.inl h
+      · exact Or.inr ⟨hact, _, h⟩
+    have hit := stepItemTicksQ_decomposed sep ws pre t g tail b pre.length skip hb' rfl hsw hfree hg ht htail'
+    have hoff := stepItemQ_off sep ws pre t g tail b pre.length acc skip hb' rfl hsw hfree hg ht htail'
+    have hrl : rest.length = t.length + g.length + tail.length := by rw [hrest]; simp; omega
+    simp only [arrayLoopTicksQ, arrayStepTicksQ, arrayStepQ]
+    generalize stepItemTicksQ b [sep] ws skip pre.length = I at hit ⊢
+    cases hsi : stepItemQ b [sep] ws skip pre.length acc with
+    | error e => simp; omega
+    | ok r =>
+      obtain ⟨acc', off1⟩ := r
+      have ho1 := hoff acc' off1 hsi
+      subst ho1
+      simp only []
+      rcases htail with htl | ⟨_, s, w, r3, htl, hs, hws, hw, hr3⟩
+      · subst htl
+        rw [stepSep_end _ _ _ _ _ _ _ (by simp [hb']; omega)]
+        have : stepSepTicks b [sep] ws skip (pre.length + t.length + g.length) = 1 := by
+          simp [stepSepTicks, hb']; omega
+        rw [this]
+        simp at hrl ⊢; omega
+      · subst htl
+        have hst2 := stepSepTicks_decomposed sep ws (pre ++ (t ++ g)) s w r3 b
+          (pre.length + t.length + g.length) skip (by rw [hb']; simp) (by simp; omega) hs hws hw hr3
+        have hss := stepSep_decomposed sep ws (pre ++ (t ++ g)) s w r3 b
+          (pre.length + t.length + g.length) acc' skip (by rw [hb']; simp) (by simp; omega) hs hws hw hr3
+        generalize stepSepTicks b [sep] ws skip (pre.length + t.length + g.length) = P at hst2 ⊢
+        rw [hss]
+        have hrl' : rest.length = t.length + g.length + 1 + s.length + w.length + r3.length := by
+          rw [hrest]; simp; omega
+        by_cases hbad : skip = false ∧ s ≠ []
+        · simp [hbad]; omega
+        · simp only [hbad, if_false]
+          by_cases h3 : r3 = []
+          · simp [h3]; omega
+          · simp only [h3, if_false]
+            have := ih r3 (pre ++ (t ++ (g ++ sep :: (s ++ w)))) b acc' f (by omega) (by rw [hb']; simp) hr3
+            have hoffeq : (pre ++ (t ++ (g ++ sep :: (s ++ w)))).length =
+                pre.length + t.length + g.length + 1 + s.length + w.length := by simp; omega
+            rw [hoffeq] at this
+            generalize arrayLoopTicksQ b [sep] ws skip none f
+              (pre.length + t.length + g.length + 1 + s.length + w.length) acc' = L at this ⊢
+            omega
+
+/-- interpreter steps of the quote-aware `_parse_string_array` are linear in the length of the buffer (one more step
+per byte than the plain scanner: the state update) -/
+theorem array_ticks_linearQ (sep : UInt8) (ws : Bytes) (skip : Bool) (hsw : sep ∉ ws) (b : Bytes) :
+    arrayTicksQ b 0 [sep] ws skip none ≤ 21 * b.length + 15 := by
+  obtain ⟨w, rest, hb, hw, hrest⟩ := exists_run ws.contains b
+  have hw' : ∀ x ∈ w, x ∈ ws := fun x hx => by simpa using hw x hx
+  have hrest' : ∀ y r', rest = y :: r' → y ∉ ws := fun y r' h => by simpa using hrest y r' h
+  unfold arrayTicksQ
+  have hsk := skipWsTicks_run (b := b) (off := 0) ws [] w rest (by simpa using hb) rfl hw' hrest'
+  rw [skipWs_run (b := b) (off := 0) ws [] w rest (by simpa using hb) rfl hw' hrest']
+  have := loop_ticksQ sep ws skip hsw rest.length rest w b [] (b.length + 1) (Nat.le_refl _) hb hrest'
+  simp only [Nat.zero_add]
+  generalize skipWsTicks b ws 0 = K at hsk ⊢
+  generalize arrayLoopTicksQ b [sep] ws skip none (b.length + 1) w.length [] = L at this ⊢
+  have : b.length = w.length + rest.length := by rw [hb]; simp
+  omega
+
 end Cp.Text
